@@ -41,19 +41,31 @@ func (r *symlinkResolver) append(p string) error {
 			p = absParts[1]
 		}
 	}
-	p = filepath.Join(".", p)
+	// The path is walked one component at a time and ".." is applied to the
+	// location reached so far, which is free of links. Cleaning the path as a
+	// string would take a ".." that follows a symlink for the link's own parent
+	// instead of the parent of the directory the link points to.
+	p = filepath.FromSlash(p)
 	current := "."
 	for {
 		parts := strings.SplitN(p, string(filepath.Separator), 2)
-		current = filepath.Join(current, parts[0])
-
-		targets, err := r.readSymlink(current, true)
-		if err != nil {
-			return err
-		}
 		p = ""
 		if len(parts) == 2 {
 			p = parts[1]
+		}
+
+		var targets []string
+		switch parts[0] {
+		case "", ".":
+		case "..":
+			current = filepath.Dir(current)
+		default:
+			current = filepath.Join(current, parts[0])
+			var err error
+			targets, err = r.readSymlink(current, true)
+			if err != nil {
+				return err
+			}
 		}
 
 		if p == "" || targets != nil {
@@ -65,7 +77,7 @@ func (r *symlinkResolver) append(p string) error {
 		if targets != nil {
 			r.resolved[current] = struct{}{}
 			for _, target := range targets {
-				if err := r.append(filepath.Join(target, p)); err != nil {
+				if err := r.append(target + string(filepath.Separator) + p); err != nil {
 					return err
 				}
 			}
@@ -125,12 +137,13 @@ func (r *symlinkResolver) readSymlink(p string, allowWildcard bool) ([]string, e
 		return nil, errors.WithStack(&os.PathError{Path: p, Err: syscall.EBADMSG, Op: "fileinfo without stat info"})
 	}
 
-	link := filepath.Clean(stat.Linkname)
+	// not cleaned: see append
+	link := filepath.FromSlash(stat.Linkname)
 	if filepath.IsAbs(link) {
 		return []string{link}, nil
 	}
 	return []string{
-		filepath.Join(string(filepath.Separator), filepath.Join(filepath.Dir(p), link)),
+		string(filepath.Separator) + filepath.Dir(p) + string(filepath.Separator) + link,
 	}, nil
 }
 
